@@ -110,6 +110,10 @@ def _run_prog(ctx, cid, prog):
             _loop(step[1])
         elif op == 'ret':
             return f'v{cid}:{step[1]}'
+        elif op == 'ret_exc':
+            # the function RETURNS an exception instance as its value (a validator's verdict, a collected error): the
+            # caller must get that object back, not have it raised
+            return {'value': ValueError, 'timeout': TimeoutError, 'memory': MemoryError}[step[1]](f'v{cid}:{step[1]}')
         elif op == 'raise':
             kind = step[1]
             if kind == 'value':
@@ -347,6 +351,8 @@ def _gen_body(rng, limit, placement, depth, allow_nested):
 
 def _gen_end(rng):
     r = rng.random()
+    if r < 0.05:
+        return ['ret_exc', rng.choice(['value', 'timeout', 'memory'])]
     if r < 0.6:
         return ['ret', rng.randrange(1000)]
     if r < 0.9:
